@@ -192,7 +192,7 @@ func dynJSONDocs() []string {
 
 func streamDyn(seed uint64, n int) (*Summary, error) {
 	sum := newSummary("dyn", seed)
-	sum.Rule = "zoo of ~100 Go dynamic values (nil and typed nils incl. nil pointers of types with value-receiver String()/Error() methods, pointer chains, named and unnamed maps with every key/element kind, structs with unexported fields and empty tags, channels, functions, NaN/Inf, huge numbers, invalid UTF-8, 200-deep nesting, long strings) and ~35 JSON documents (incl. {}, non-objects, truncated, 500-deep, invalid UTF-8) through Parse / zjson / zhttp / zenv (incl. ~400 hostile query / form parameter NAMES: schema keys decorated with negative, signed, huge, nested and malformed indexes, dots, brackets) on matching (schema, destination) pairs incl. a 48-byte schema key, a non-ASCII key and empty tags, plus random mutations of the zoo, each also with every field behind a Preprocess function that hands its input on unchanged; exhaustive over the zoo; non-trivial = every case; distinct = distinct (front end, value)"
+	sum.Rule = "zoo of ~100 Go dynamic values (nil and typed nils incl. nil pointers of types with value-receiver String()/Error() methods, pointer chains, named and unnamed maps with every key/element kind, structs with unexported fields and empty tags, channels, functions, NaN/Inf, huge numbers, invalid UTF-8, 200-deep nesting, long strings) and ~35 JSON documents (incl. {}, non-objects, truncated, 500-deep, invalid UTF-8) through Parse / zjson / zhttp / zenv (incl. ~400 hostile query / form parameter NAMES: schema keys decorated with negative, signed, huge, nested and malformed indexes, dots, brackets; ~300 hostile environment VALUES: lone / unbalanced quotes, control bytes, separators, expansions, very long) on matching (schema, destination) pairs incl. a 48-byte schema key, a non-ASCII key and empty tags, plus random mutations of the zoo, each also with every field behind a Preprocess function that hands its input on unchanged; exhaustive over the zoo; non-trivial = every case; distinct = distinct (front end, value)"
 	schema := dynSchema()
 	prims := []func(v any) (string, any){
 		func(v any) (string, any) { var d string; return "String", z.String().Required().Min(1).Parse(v, &d) },
@@ -310,6 +310,21 @@ func streamDyn(seed uint64, n int) (*Summary, error) {
 		os.Setenv(kv[0], kv[1])
 		guard("zenv "+kv[0], func() { var d dDest; schema.Parse(zenv.NewDataProvider(), &d) })
 		os.Unsetenv(kv[0])
+	}
+	// hostile environment VALUES: quotes, lone and unbalanced, control bytes, separators, very long values
+	for _, key := range []string{"name", "age", "ok", "when", "tags", "Ébène"} {
+		for _, val := range []string{"\"", "'", " \" ", "\"\"", "''", "\"a", "a\"", "'a\"", "\"'", "`", "=", "==", "a=b", ",", ",,", " , ", ";", "\\", "\\n", "$", "${name}", "$(x)", "%", "%zz", "#", "\x01", "\x7f",
+			"\xff\xfe", "\u00a0", "\u2028", "-", "+", ".", "e", "0x", "1e", "1e999999", "-0", "+-1", strings.Repeat("9", 5000), strings.Repeat("\"", 3), "true ", " false", "T", "2024-13-45", "0001-01-01T00:00:00Z"} {
+			key, val := key, val
+			guard(fmt.Sprintf("zenv %s=%q", key, val), func() {
+				os.Setenv(key, val)
+				defer os.Unsetenv(key)
+				var d dDest
+				schema.Parse(zenv.NewDataProvider(), &d)
+				var pd *dDest
+				z.Ptr(schema).Parse(zenv.NewDataProvider(), &pd)
+			})
+		}
 	}
 	// random mutations: nest zoo values into the record at random keys
 	r := rng.New(seed)
